@@ -176,7 +176,7 @@ MUTANTS = [
     M("c15.3-assign-narrow", "C15", "C15.3", ECF, ".eq(2**ecc_width_to//8-1)", ".eq(2**(ecc_width_to//8)-1)"),
     B("c15-twin-assign-wide", "C15", ECF, ".eq(2**ecc_width_to//8-1)", ".eq(2**(ecc_width_to//8 + 1)-1)"),
     # ---- C14 ----
-    M("c14.1-taps", "C14", "C14.1", BIF, "        data_gen = Generator(31, n_state=31, taps=[27, 30]) # PRBS31\n        addr_gen = Generator(31, n_state=31, taps=[27, 30])\n        self.submodules += data_gen, addr_gen\n        self.comb += data_gen.random_enable.eq(self.random_data)\n        self.comb += addr_gen.random_enable.eq(self.random_addr)\n\n        addr_mask = Signal(awidth)\n        self.comb += addr_mask.eq((self.end - self.base) - 1)\n\n        dma = LiteDRAMDMAReader(dram_port)", "        data_gen = Generator(31, n_state=31, taps=[27, 29]) # PRBS31\n        addr_gen = Generator(31, n_state=31, taps=[27, 30])\n        self.submodules += data_gen, addr_gen\n        self.comb += data_gen.random_enable.eq(self.random_data)\n        self.comb += addr_gen.random_enable.eq(self.random_addr)\n\n        addr_mask = Signal(awidth)\n        self.comb += addr_mask.eq((self.end - self.base) - 1)\n\n        dma = LiteDRAMDMAReader(dram_port)"),
+    dict(id="c14.1-taps", prop="C14", ob="C14.1", expect="refuted", edits=[dict(file=BIF, old="data_gen = Generator(31, n_state=31, taps=[27, 30]) # PRBS31", new="data_gen = Generator(31, n_state=31, taps=[27, 29]) # PRBS31", nth=2)]),
     M("c14.2-ce-valid", "C14", "C14.2", BIF, "            dma.source.ready.eq(1),\n            If(dma.source.valid,\n                data_gen.ce.eq(1),", "            dma.source.ready.eq(1),\n            data_gen.ce.eq(1),\n            If(dma.source.valid,"),
     M("c14.3-errors", "C14", "C14.3", BIF, "                    NextValue(self.errors, self.errors + 1)\n                ),\n                If(data_counter == (self.length[ashift:] - 1),", "                    NextValue(self.errors, self.errors + 2)\n                ),\n                If(data_counter == (self.length[ashift:] - 1),"),
     M("c14.5-nodrain", "C14", "C14.5", BIF, "            If(~dma.fifo.source.valid,\n                NextState(\"DONE\"),\n            ),", "            NextState(\"DONE\"),"),
